@@ -425,7 +425,7 @@ int dump_loop(cif_loop_tp *l, Loop &out) {
     cif_pktitr_tp *it = nullptr;
     rc = cif_loop_get_packets(l, &it);
     if (rc == CIF_EMPTY_LOOP) return CIF_OK;
-    if (rc != CIF_OK) return rc;
+    if (rc != CIF_OK) { if (getenv("VERIF_DUMP_DEBUG")) fprintf(stderr, "dump_loop: get_packets -> %d\n", rc); return rc; }
     cif_packet_tp *pkt = nullptr;
     int rc2;
     while ((rc = cif_pktitr_next_packet(it, &pkt)) == CIF_OK) {
@@ -441,6 +441,7 @@ int dump_loop(cif_loop_tp *l, Loop &out) {
     }
     cif_packet_free(pkt);
     rc2 = cif_pktitr_close(it);
+    if (getenv("VERIF_DUMP_DEBUG") && (rc != CIF_FINISHED || rc2 != CIF_OK)) fprintf(stderr, "dump_loop: next_packet ended with %d, close -> %d\n", rc, rc2);
     if (rc != CIF_FINISHED) return rc;
     return rc2;
 }
